@@ -26,6 +26,11 @@ def check_proof(cell: "Cell", hash_: bytes) -> None:
     if cell[0].get_hash(0) != hash_:  # TODO Level mask
         raise ProofError('Merkle proof is invalid')
 
+    # the cell must be exactly a Merkle proof cell: tag, hash and depth of its only child, nothing else
+    if len(cell.refs) != 1 or len(cell.bits) != 280 or \
+            cell.data != b'\x03' + hash_ + cell[0].get_depth(0).to_bytes(2, 'big'):
+        raise ProofError('Malformed Merkle proof cell')
+
     return
 
 
